@@ -377,6 +377,9 @@ func lineText(b bo.Box, sb *strings.Builder) {
 // a box generated for paragraph element t<Para> on a page (one per fragment)
 type fragObs struct {
 	Para, Page int
+	// the box is a direct child of a line box that already has, among its direct children, a
+	// principal box of the same element (one line holds the element's box twice)
+	SameLine bool
 }
 
 func walkLines(b bo.Box, para, page int, out *[]lineObs, frags *[]fragObs) {
@@ -391,13 +394,24 @@ func walkLines(b bo.Box, para, page int, out *[]lineObs, frags *[]fragObs) {
 			}
 		}
 	}
+	_, isLine := b.(*bo.LineBox)
 	if l, ok := b.(*bo.LineBox); ok {
 		var sb strings.Builder
 		lineText(l, &sb)
 		*out = append(*out, lineObs{Para: para, Page: page, Text: sb.String()})
 	}
+	seen := map[string]bool{}
 	for _, c := range b.Box().Children {
+		n0 := len(*frags)
 		walkLines(c, para, page, out, frags)
+		if _, inl := c.(*bo.InlineBox); isLine && !inl && len(*frags) > n0 {
+			if id := elemID(c); strings.HasPrefix(id, "t") && c.Box().PseudoType == "" && fmt.Sprintf("t%d", (*frags)[n0].Para) == id {
+				if seen[id] {
+					(*frags)[n0].SameLine = true
+				}
+				seen[id] = true
+			}
+		}
 	}
 }
 
@@ -639,6 +653,17 @@ func unitDocCases(d *pagedoc.Doc) []vlib.Case {
 	return append(cases, drawCases(doc, tags, html)...)
 }
 
+// the text document of a job seed.  EXPLORATORY ONLY (environment C02_SOFT_HYPHENS=1, never
+// set by the registered check): 1 document in 4 gets soft hyphens inside its words (drawn from
+// a generator of their own: otherwise the same document).  Not part of the check because the
+// unchanged tree already loses / cuts characters on that path (see notes/C02.md, fourth round).
+func genTextDoc(seed uint64) *pagedoc.TextDoc {
+	if os.Getenv("C02_SOFT_HYPHENS") == "1" && vlib.NewRng(seed^0x5348590001).Chance(1, 4) {
+		return pagedoc.GenerateTextShy(vlib.NewRng(seed), vlib.NewRng(seed^0x5348590002))
+	}
+	return pagedoc.GenerateText(vlib.NewRng(seed))
+}
+
 func handle(in string) string {
 	var j job
 	if err := json.Unmarshal([]byte(in), &j); err != nil {
@@ -673,7 +698,7 @@ func handle(in string) string {
 		}
 		cases = textDocCases(&d, "corpus")
 	default:
-		cases = textDocCases(pagedoc.GenerateText(r), "text")
+		cases = textDocCases(genTextDoc(j.Seed), "text")
 	}
 	b, _ := json.Marshal(cases)
 	return string(b)
@@ -710,7 +735,7 @@ func main() {
 		return
 	}
 	if *one != 0 {
-		d := pagedoc.GenerateText(vlib.NewRng(*one))
+		d := genTextDoc(*one)
 		if *asJSON {
 			b, _ := json.Marshal(d)
 			fmt.Println(string(b))
